@@ -15,6 +15,7 @@ import (
 	"net"
 	"os"
 	"sync"
+	"sync/atomic"
 	"time"
 
 	"verif/simq"
@@ -43,6 +44,14 @@ func newHalf() *half {
 }
 
 func poke(ch chan struct{}) { simq.Poke(ch) }
+
+// visibleOps is bumped once at the start of every network operation the other side can
+// observe. In the instrumented build (engine E3) the atomic is a scheduling point, so each
+// such operation is exactly one decision of the schedule — the environment's actions can be
+// interleaved with the library one at a time — while sim's internal bookkeeping is not.
+var visibleOps atomic.Int64
+
+func yield() { visibleOps.Add(1) }
 
 // Conn is one end of a simulated TCP connection.
 type Conn struct {
@@ -91,6 +100,7 @@ func (c *Conn) isClosed() bool {
 
 // Read implements net.Conn.
 func (c *Conn) Read(p []byte) (int, error) {
+	yield()
 	for {
 		c.rd.mu.Lock()
 		if c.rd.reset {
@@ -152,6 +162,7 @@ func (c *Conn) Read(p []byte) (int, error) {
 
 // Write implements net.Conn.
 func (c *Conn) Write(p []byte) (int, error) {
+	yield()
 	for {
 		if c.isClosed() {
 			return 0, net.ErrClosed
@@ -213,6 +224,7 @@ func (c *Conn) peerClosed() bool { return c.wr.readerGone }
 // Close implements net.Conn: the other side reads EOF after draining, our own pending and
 // later Reads/Writes fail with net.ErrClosed.
 func (c *Conn) Close() error {
+	yield()
 	c.mu.Lock()
 	c.CloseCalls++
 	c.mu.Unlock()
@@ -237,6 +249,7 @@ func (c *Conn) Close() error {
 // Reset aborts the connection in both directions (RST): unread bytes are discarded and
 // both ends see ErrReset on their next/pending Read or Write.
 func (c *Conn) Reset() {
+	yield()
 	for _, h := range []*half{c.rd, c.wr} {
 		h.mu.Lock()
 		h.reset = true
@@ -355,6 +368,7 @@ type Listener struct {
 }
 
 func (l *Listener) Accept() (net.Conn, error) {
+	yield()
 	for {
 		select {
 		case <-l.closed:
@@ -380,6 +394,7 @@ func (l *Listener) Accept() (net.Conn, error) {
 }
 
 func (l *Listener) Close() error {
+	yield()
 	l.mu.Lock()
 	l.CloseCalls++
 	l.mu.Unlock()
@@ -449,6 +464,7 @@ func (n *Net) Since() time.Duration { return time.Since(n.start) }
 
 // Dial is an hsms.DialFunc.
 func (n *Net) Dial(ctx context.Context, network, address string) (net.Conn, error) {
+	yield()
 	n.mu.Lock()
 	attempt := len(n.Dials)
 	ans := Accept
@@ -540,6 +556,7 @@ func (n *Net) LiveListener() *Listener {
 // harness end, or nil when nothing is listening (connection refused). The connection
 // sits in the listener's backlog until the library accepts it.
 func (n *Net) Connect() *Conn {
+	yield()
 	l := n.LiveListener()
 	if l == nil {
 		return nil
